@@ -32,9 +32,9 @@ def wfWhy (i : Input) : String :=
   if !(allBelow i.jcol (fun k => (k : Int) ≤ repOf e k && repOf e k < i.jcol && repOf e (repOf e k) = repOf e k)) then "representatives" else
   if !(allBelow i.jcol (fun s => repOf e s ≠ s ||
     (0 ≤ rd i.xlsub s && rd i.xlsub s ≤ rd i.xprune s && rd i.xprune s ≤ nextl0 &&
-     (adjRows e i.lsub s).all fun row => 0 ≤ row && row < i.m && (rd i.perm_r row = EMPTY || (s : Int) ≤ rd i.perm_r row)))) then
+     (adjRows e i.lsub s).all fun row => 0 ≤ row && row < i.m && (rd i.perm_r row = EMPTY || (s : Int) ≤ rd i.perm_r row || repOf e (rd i.perm_r row) = s)))) then
     let bad := (List.range i.jcol.toNat).filter (fun (s : Nat) => repOf e s = s && !(0 ≤ rd i.xlsub s && rd i.xlsub s ≤ rd i.xprune s && rd i.xprune s ≤ nextl0 &&
-      (adjRows e i.lsub s).all fun row => 0 ≤ row && row < i.m && (rd i.perm_r row = EMPTY || (s : Int) ≤ rd i.perm_r row)))
+      (adjRows e i.lsub s).all fun row => 0 ≤ row && row < i.m && (rd i.perm_r row = EMPTY || (s : Int) ≤ rd i.perm_r row || repOf e (rd i.perm_r row) = s)))
     let s0 := bad.headD 0
     s!"pruned lists: s={s0} xsup={i.xsup.toList} supno={i.supno.toList} xlsub[s]={rd i.xlsub s0} xprune[s]={rd i.xprune s0} nextl0={nextl0} rows={adjRows e i.lsub s0} perm_r={i.perm_r.toList}" else
   if !((colRows i.lsubCol).all (fun row => 0 ≤ row && row < i.m)) then "column rows" else "?"
